@@ -241,4 +241,140 @@ theorem refreshDkgShares_ok_consistent (S : Suite F E) (sp : Round2Secret F E)
         rw [← hown, ← hsumG, add_smul, add_smul]
         abel
 
+/-- the loop succeeds when the old package knows every identifier -/
+theorem addOldShares_ok (S : Suite F E) (old : List (F × E)) :
+    ∀ (zs acc : List (F × E)), (∀ id ∈ SMap.keys zs, ∃ Y, SMap.get? old id = some Y) →
+      ∃ out, addOldShares S old zs acc = .ok out := by
+  intro zs
+  induction zs with
+  | nil => intro acc _; exact ⟨acc, rfl⟩
+  | cons kv rest ih =>
+    intro acc h
+    obtain ⟨k, Yz⟩ := kv
+    obtain ⟨Y, hY⟩ := h k (by simp [SMap.keys])
+    unfold addOldShares
+    simp only [hY]
+    exact ih _ (fun id hid => h id (by simp only [SMap.keys, List.map_cons, List.mem_cons]; right; exact hid))
+
+/-- **The honest distributed refresh succeeds and re-links everything.**  Every participant `ℓ`
+    contributes the zero-constant polynomial `r_ℓ(x) = x·(rc ℓ)(x)` (`rc ℓ` = its `t − 1` drawn
+    coefficients; the commitment it files is `rc ℓ • G`, without the identity entry); `sold i` is
+    participant `i`'s old signing share and the old public key package lists `sold i • G`.  Then
+    `refresh_dkg_shares` returns, for `R(x) = r_me(x) + Σ_ℓ r_ℓ(x)`: signing share
+    `sold me + R(me)`, verifying share = that times `G`, the OLD group key in both packages, the
+    same threshold, and `(sold i + R(i)) • G` as verifying share of EVERY participant `i` — which
+    is the hypothesis `hvs` of `refreshed_can_sign` (`R` has zero constant term, so the sharing
+    still interpolates to the old secret: `refresh_preserves_sharing`). -/
+theorem refreshDkgShares_honest (S : Suite F E) (me : F) (rc : F → List F) (sold : F → F)
+    (t n : Nat) (ht : 0 < t) (hrc : ∀ l, (rc l).length + 1 = t)
+    (r1 : List (F × Round1Package F E)) (h0 : n ≠ 0) (hlen : r1.length = n - 1)
+    (hown : me ∉ SMap.keys r1) (hnd : (SMap.keys r1).Nodup)
+    (hcm : ∀ ip ∈ r1, ip.2.commitment = (rc ip.1).map fun c => c • S.G)
+    (oldPkp : PublicKeyPackage F E) (oldKp : KeyPackage F E)
+    (hmin : oldKp.minSigners = t) (hshare : oldKp.share = sold me)
+    (hold : ∀ id ∈ me :: SMap.keys r1, SMap.get? oldPkp.vshares id = some (sold id • S.G)) :
+    let Rtot := fun x => hornerR (0 :: rc me) x +
+      ((SMap.keys r1).map fun l => hornerR (0 :: rc l) x).sum
+    ∃ kp pkp,
+      refreshDkgShares S ⟨me, (rc me).map fun c => c • S.G, hornerR (0 :: rc me) me, t, n⟩ r1
+        (r1.map fun ip => (ip.1, hornerR (0 :: rc ip.1) me)) oldPkp oldKp = .ok (kp, pkp) ∧
+      kp = ⟨me, sold me + Rtot me, (sold me + Rtot me) • S.G, oldPkp.vk, t⟩ ∧
+      pkp.vk = oldPkp.vk ∧ pkp.minSigners = some t ∧
+      ∀ id ∈ me :: SMap.keys r1, SMap.get? pkp.vshares id = some ((sold id + Rtot id) • S.G) := by
+  intro Rtot
+  set r2 := r1.map fun ip => (ip.1, hornerR (0 :: rc ip.1) me) with hr2
+  set r1c := r1.map fun ip => (ip.1, (0 : E) :: ip.2.commitment) with hr1c
+  set own := (0 : E) :: ((rc me).map fun c => c • S.G) with hownC
+  have hz : ∀ l : List F, (0 : E) :: (l.map fun c => c • S.G) = ((0 : F) :: l).map fun c => c • S.G := by
+    intro l; simp
+  have hk2 : SMap.keys r2 = SMap.keys r1 := by
+    simp [hr2, SMap.keys, List.map_map, Function.comp_def]
+  have hkr1c : SMap.keys r1c = SMap.keys r1 := by
+    simp [hr1c, SMap.keys, List.map_map, Function.comp_def]
+  have c3 : (SMap.keys r1c).any (fun id => !SMap.contains r2 id) = false := by
+    rw [List.any_eq_false]
+    intro id hid
+    have := (SMap.contains_iff r2 id).mpr (by rw [hk2, ← hkr1c]; exact hid)
+    simp [this]
+  have hl2 : r1c.length = r2.length := by simp [hr1c, hr2]
+  have hloop : part3Loop S me r1c false r2 0 = .ok (0 + (r2.map (·.2)).sum) := by
+    rw [part3Loop_ok_iff]
+    refine ⟨rfl, ?_⟩
+    intro lv hlv
+    obtain ⟨ip, hip, rfl⟩ := List.mem_map.mp hlv
+    refine ⟨(0 : E) :: ip.2.commitment, ?_, by simp, ?_⟩
+    · exact SMap.get?_of_mem_nodup r1c (by rw [hkr1c]; exact hnd) ip.1 _
+        (List.mem_map.mpr ⟨ip, hip, rfl⟩)
+    · rw [hcm ip hip, hz, vssR_map_smul]
+  have hme : me ∉ SMap.keys r1c := by rw [hkr1c]; exact hown
+  set cm := SMap.insert S.idLt r1c me own with hcmdef
+  have hperm : cm.Perm ((me, own) :: r1c) := SMap.insert_perm_of_not_mem _ _ _ _ hme
+  have hcmne : cm ≠ [] := by
+    intro e
+    have := hperm.length_eq
+    rw [e] at this; simp at this
+  have hL : ∀ ic ∈ cm, ic.2.length = t := by
+    intro ic hic
+    rcases List.mem_cons.mp (hperm.mem_iff.mp hic) with e | e
+    · subst e; simp [hownC, hrc]
+    · obtain ⟨ip, hip, rfl⟩ := List.mem_map.mp e
+      simp only; rw [hcm ip hip]; simp [hrc]
+  obtain ⟨gc, _, hgv, hpk⟩ := fromDkgCommitments_spec (F := F) cm t hcmne hL ht
+  have hgcF : ∀ x : F, vssR gc x = Rtot x • S.G := by
+    intro x
+    rw [hgv, (hperm.map fun ic => vssR ic.2 x).sum_eq]
+    simp only [List.map_cons, List.sum_cons, hownC]
+    rw [hz, vssR_map_smul]
+    simp only [Rtot, add_smul]
+    congr 1
+    have : ∀ l : List (F × Round1Package F E), (∀ ip ∈ l, ip ∈ r1) →
+        ((l.map fun ip => (ip.1, (0 : E) :: ip.2.commitment)).map fun ic => vssR ic.2 x).sum =
+        ((SMap.keys l).map fun l => hornerR (0 :: rc l) x).sum • S.G := by
+      intro l hl
+      induction l with
+      | nil => simp [SMap.keys]
+      | cons a r ih =>
+        simp only [List.map_cons, List.sum_cons, SMap.keys, add_smul]
+        rw [hcm a (hl a (by simp)), hz, vssR_map_smul]
+        congr 1
+        exact ih (fun ip hip => hl ip (by simp [hip]))
+    exact this r1 (fun ip hip => hip)
+  have hsum : (r2.map (·.2)).sum = ((SMap.keys r1).map fun l => hornerR (0 :: rc l) me).sum := by
+    simp [hr2, SMap.keys, List.map_map, Function.comp_def]
+  have hkcm : (SMap.keys cm).Perm (me :: SMap.keys r1c) := by
+    simpa [SMap.keys] using hperm.map Prod.fst
+  have hndcm : (SMap.keys cm).Nodup := by
+    rw [hkcm.nodup_iff]
+    exact List.nodup_cons.2 ⟨hme, by rw [hkr1c]; exact hnd⟩
+  have hkz : SMap.keys ((SMap.keys cm).map fun id => (id, vssR gc id)) = SMap.keys cm := by
+    simp [SMap.keys, List.map_map, Function.comp_def]
+  obtain ⟨vs, hadd⟩ := addOldShares_ok S oldPkp.vshares
+    ((SMap.keys cm).map fun id => (id, vssR gc id)) [] (by
+      intro id hid
+      rw [hkz, hkcm.mem_iff, hkr1c] at hid
+      exact ⟨_, hold id hid⟩)
+  refine ⟨⟨me, sold me + Rtot me, (sold me + Rtot me) • S.G, oldPkp.vk, t⟩,
+    { vshares := vs, vk := oldPkp.vk, minSigners := some t }, ?_, rfl, rfl, rfl, ?_⟩
+  · unfold refreshDkgShares
+    simp only
+    rw [if_neg (by simp [hmin]), if_neg h0, if_neg (by simp [hr1c, hlen]),
+      if_neg (by rw [← hr1c]; simp [hl2]), if_neg (by rw [← hr1c, c3]; simp)]
+    rw [← hr1c, hloop]
+    simp only
+    rw [← hownC, ← hcmdef, hpk]
+    simp only [hadd]
+    have e1 : 0 + (r2.map (·.2)).sum + hornerR (0 :: rc me) me + oldKp.share = sold me + Rtot me := by
+      rw [hsum, hshare]; simp only [Rtot]; ring
+    rw [e1]
+  · intro id hid
+    have hin : id ∈ SMap.keys cm := by rw [hkcm.mem_iff, hkr1c]; exact hid
+    have hspec := addOldShares_spec S oldPkp.vshares _ [] vs (by rw [hkz]; exact hndcm) hadd id
+    rw [get?_map_self _ _ _ hin] at hspec
+    simp only [hold id hid, Option.map_some] at hspec
+    simp only
+    rw [hspec, hgcF id]
+    congr 1
+    simp only [Rtot, add_smul]
+    abel
+
 end Frost
